@@ -690,6 +690,15 @@ func (c *Ctx) Concat(a, b *Term) *Term {
 	if a.Op == OExtract && b.Op == OExtract && a.Args[0] == b.Args[0] && a.P2 == b.P1+1 {
 		return c.Extract(a.Args[0], a.P1, b.P2)
 	}
+	// concat(concat(p, e1), e2) with e1,e2 adjacent slices of one term
+	if a.Op == OConcat && b.Op == OExtract {
+		if r := a.Args[1]; r.Op == OExtract && r.Args[0] == b.Args[0] && r.P2 == b.P1+1 {
+			return c.Concat(a.Args[0], c.Extract(b.Args[0], r.P1, b.P2))
+		}
+	}
+	if a.Op == OConcat && b.IsConst() && a.Args[1].IsConst() {
+		return c.Concat(a.Args[0], c.Concat(a.Args[1], b))
+	}
 	return c.mk(OConcat, BV(w), []*Term{a, b}, nil, "", 0, 0)
 }
 
